@@ -57,7 +57,7 @@ enum { S_PLAIN, S_MCP, S_UNK, S_REF, S_MCREF, S_SEG };
 struct Span { size_t len; int kind; int id; int src; bool sf; int inst; };
 struct Inst { bool moved = false; int pieces = 0; };
 struct MB { int uid; struct evbuffer *eb; std::string d; std::vector<Span> sp; bool user = true, drains = false, fz_end = false, may = true, must = true; bool empties = false; /* may hold an empty immutable chain */ };
-struct Ref { bool used = false, ok = false, has_cb = false, loose = false; int slot = 0; size_t a = 0, off = 0, len = 0; int count = 0; const unsigned char *data = nullptr; };
+struct Ref { bool used = false, ok = false, has_cb = false, loose = false, revoke = false; int slot = 0; size_t a = 0, off = 0, len = 0; int count = 0; const unsigned char *data = nullptr; };
 struct Seg { bool used = false, handle = false, anon = false, has_cb = false, loose = false, fd_done = false; struct evbuffer_file_segment *h = nullptr;
   int file = 0; size_t off = 0, len = 0; unsigned flags = 0; int fd = -1; int count = 0; bool minus1 = false; };
 
@@ -84,7 +84,7 @@ void ref_cleanup(const void *data, size_t len, void *extra) {
   CHECK(data == (const void *)R.data && len == R.off + R.len, K("cleanup-args"), "cleanup of ref%d got (%p,%zu), expected (%p,%zu)", r, data, len, (const void *)R.data, R.off + R.len);
   w.n_cleanup++;
   // the owner releases the memory: any later access through the library faults
-  mprotect(g_slots + (size_t)R.slot * SLOT_SZ, SLOT_SZ, PROT_NONE); g_slot_none[R.slot] = true;
+  if (R.revoke) { mprotect(g_slots + (size_t)R.slot * SLOT_SZ, SLOT_SZ, PROT_NONE); g_slot_none[R.slot] = true; }   // (page-table calls are very slow in this sandbox, so only some references do this)
 }
 void seg_cleanup(struct evbuffer_file_segment const *seg, int flags, void *arg) {
   World &w = *W; int s = (int)(intptr_t)arg - 200;
@@ -173,13 +173,16 @@ void check_resources(const char *when) {
   for (int s = 0; s < NSEG; s++) { Seg &S = w.segs[s]; if (!S.used || S.fd_done) continue;
     bool may, must; live_of(S_SEG, S_SEG, s, may, must);
     if (S.handle) may = must = true;
-    if (S.loose) may = true;
     bool cof = (S.flags & EVBUF_FS_CLOSE_ON_FREE) != 0;
+    // an empty chain of this segment may sit in some buffer (or a leaked cycle exists): the moment of death is not known to the
+    // model, so it is taken from what can be observed (fd closed / callback ran) and only checked for consistency
+    bool lax = S.loose || w.cycle;
+    bool observed = (cof && !fd_open(S.fd)) || (S.has_cb && S.count > 0);
     if (must) {
       if (S.has_cb && S.count) VERIF_FAIL(K("seg-cleanup-too-early"), "%s (op %d): cleanup of seg%d has run but the segment is still in use", when, w.opno, s);
       CHECK(fd_open(S.fd), K("seg-fd-closed-early"), "%s (op %d): fd %d of seg%d is closed while the segment is still in use", when, w.opno, S.fd, s);
     }
-    if (!may && !w.cycle) {
+    if (!may && (!lax || observed)) {
       if (S.has_cb && !S.count) VERIF_FAIL(K("seg-cleanup-missing"), "%s (op %d): no reference to seg%d is left but its cleanup has not run", when, w.opno, s);
       if (cof) CHECK(!fd_open(S.fd), K("seg-fd-not-closed"), "%s (op %d): seg%d (CLOSE_ON_FREE) is gone but fd %d is still open", when, w.opno, s, S.fd);
       else { CHECK(fd_open(S.fd), K("seg-fd-closed-unasked"), "%s (op %d): seg%d has no CLOSE_ON_FREE but fd %d was closed", when, w.opno, s, S.fd); close(S.fd); }
@@ -261,7 +264,7 @@ struct Gen {
     switch (s.below(10)) { case 0: R.len = 1; break; case 1: R.len = to_page; break; case 2: R.len = to_page + 1; break; case 3: R.len = to_page > 1 ? to_page - 1 : 1; break; case 4: R.len = room; break;
       case 5: R.len = PG; break; case 6: R.len = 1 + s.below(64); break; case 7: R.len = s.chance(1, 3) ? 0 : 2; break; default: R.len = 1 + s.below((uint32_t)room); }
     if (R.len > room) R.len = room;
-    R.has_cb = !s.chance(1, 10);
+    R.has_cb = !s.chance(1, 10); R.revoke = R.has_cb && s.chance(1, 6);
     R.loose = R.len == 0;
     R.data = g_slots + (size_t)r * SLOT_SZ + R.a;
     int rc = with_off ? evbuffer_add_reference_with_offset(b.eb, R.data, R.off, R.len, R.has_cb ? ref_cleanup : nullptr, (void *)(intptr_t)(100 + r))
@@ -319,6 +322,7 @@ struct Gen {
     S.file = (int)s.below(NFILE); long len; draw_range(S.file, S.off, len, true);
     S.minus1 = len < 0; S.len = len < 0 ? FSIZE[S.file] - S.off : (size_t)len;
     S.flags = s.below(8);   // CLOSE_ON_FREE=1 DISABLE_MMAP=2 DISABLE_SENDFILE=4
+    if (!(S.flags & 2) && s.chance(1, 3)) S.flags |= 2;   // mmap/munmap are very slow in this sandbox: 1/3 of the segments may map
     S.fd = dup(g_memfd[S.file]); if (S.fd < 0) abort();
     S.h = evbuffer_file_segment_new(S.fd, (ev_off_t)S.off, (ev_off_t)len, S.flags);
     TR("seg%d = file_segment_new(file%d fd %d, off %zu, len %ld, flags %u) -> %p", k, S.file, S.fd, S.off, len, S.flags, (void *)S.h);
@@ -468,6 +472,10 @@ struct Gen {
     long n = s.chance(1, 6) ? -1 : (long)rel_len(L, first_len(b));
     if (!readable(b)) { do_drain(bi, n < 0 ? 0 : (size_t)n); return; }
     size_t contig = evbuffer_get_contiguous_space(b.eb);
+    const char *INPLACE = "C15/pullup-writes-into-shared-chain";
+    int kf = b.sp.empty() ? S_PLAIN : b.sp[0].kind; const void *base0 = nullptr;
+    if ((kf == S_MCP || kf == S_UNK) && (n < 0 ? L : (size_t)n) > contig && (n < 0 ? L : (size_t)n) <= L && verif_known(INPLACE)) { verif_known_skipped(INPLACE); n = (long)contig; }
+    if (kf != S_PLAIN && kf != S_UNK && L) { struct evbuffer_iovec v1; if (evbuffer_peek(b.eb, 1, nullptr, &v1, 1) == 1) base0 = v1.iov_base; }
     unsigned char *p = evbuffer_pullup(b.eb, (ev_ssize_t)n);
     size_t eff = n < 0 ? L : (size_t)n;
     TR("pullup(buf%d [%zu], %ld) contiguous before %zu -> %s", bi, L, n, contig, p ? "ptr" : "NULL");
@@ -477,6 +485,10 @@ struct Gen {
     CHECK(evbuffer_get_contiguous_space(b.eb) >= eff, K("pullup-ret"), "after pullup(%zu) only %zu bytes are contiguous", eff, evbuffer_get_contiguous_space(b.eb));
     if (!b.sp.empty() && tracked(b.sp[0])) CHECK(contig == b.sp[0].len, K("chain-split"), "buf%d starts with an immutable chain of %zu bytes but %zu were contiguous", bi, b.sp[0].len, contig);
     if (contig >= eff) return;   // nothing had to be copied
+    // the first chain is immutable (reference / buffer reference / file segment): the bytes that follow it must be gathered
+    // somewhere else, never written behind it into memory that belongs to the owner of the shared chain
+    if (base0 && p == base0) VERIF_FAIL(INPLACE, "pullup(%ld) on buf%d, whose first chain is a read-only %s chain of %zu bytes, extended that chain in place", n, bi,
+                                        kf == S_MCP || kf == S_MCREF ? "buffer-reference" : kf == S_REF ? "reference" : "file-segment", contig);
     // bytes [0,eff) now live in one ordinary chain; every chain that was wholly inside is gone, a partly covered one keeps its tail
     int k0 = b.sp[0].kind, src0 = b.sp[0].src;
     std::string keep = b.d; std::vector<Span> dropped; take_front(b, eff, &dropped, true); b.d = keep;
@@ -584,10 +596,14 @@ extern "C" int LLVMFuzzerInitialize(int *, char ***) {
 extern "C" int LLVMFuzzerTestOneInput(const uint8_t *data, size_t size) {
   sim_reset();
   verif_case_begin("C15");
-  for (int k = 0; k < NSLOT; k++) if (g_slot_none[k]) { mprotect(g_slots + (size_t)k * SLOT_SZ, SLOT_SZ, PROT_READ); g_slot_none[k] = false; }
+  { bool any = false; for (int k = 0; k < NSLOT; k++) if (g_slot_none[k]) { any = true; g_slot_none[k] = false; } if (any) mprotect(g_slots, NSLOT * SLOT_SZ, PROT_READ); }
   Src s(data, size);
   World w; W = &w; Gen g(w, s);
-  struct sim_fdset fd0, fd1; sim_fd_snapshot(&fd0);
+  // fd ledger restricted to the range a case can touch: every fd below the lowest free one, plus the next 16 numbers
+  // (a case holds at most NSEG duplicated fds at a time; sim_fd_snapshot's 1024 fcntl calls twice per case dominated the run time)
+  int fd_lo = dup(0); if (fd_lo < 0) abort(); close(fd_lo);
+  const int FD_SPAN = 16; unsigned char fd0[256], fd1[256]; int fd_n = fd_lo + FD_SPAN; if (fd_n > 256) fd_n = 256;
+  for (int i = 0; i < fd_n; i++) fd0[i] = fd_open(i);
   int64_t live0 = sim_mem_live_blocks;
   for (int i = 0; i < 3; i++) g.new_buf(i);
   if (s.flag()) g.new_buf(3);
@@ -619,8 +635,7 @@ extern "C" int LLVMFuzzerTestOneInput(const uint8_t *data, size_t size) {
   check_resources("end of case");
   for (int k = 0; k < w.nseg; k++) CHECK(w.segs[k].fd_done, K("seg-fd-not-closed"), "end of case: seg%d still alive", k);
   CHECK(peer_empty(), K("fd-extra-bytes"), "end of case: unread bytes on the socket");
-  sim_fd_snapshot(&fd1); int df = sim_fd_diff(&fd0, &fd1);
-  CHECK(df < 0, K("fd-ledger"), "fd %d differs between start and end of the case", df);
+  for (int i = 0; i < fd_n; i++) { fd1[i] = fd_open(i); CHECK(fd0[i] == fd1[i], K("fd-ledger"), "fd %d was %s at the start of the case and is %s at the end", i, fd0[i] ? "open" : "closed", fd1[i] ? "open" : "closed"); }
   CHECK(sim_mem_live_blocks == live0, K("leak"), "library allocations outstanding at the end of the case: %lld", (long long)(sim_mem_live_blocks - live0));
 
   bool nontrivial = false;
